@@ -121,7 +121,7 @@ Print Assumptions C05_pass_noninterference.
 
 (* non-vacuity: a device with a login and an `on` script, run through a history with a time-out *)
 Definition ex_rmatch : text -> text -> option pmatch := fun _ _ => None.
-Definition ex_compress : list text -> text := fun _ => [].
+Definition ex_compress : list text -> text := fun l => concat (map (fun t => t ++ [44%N]) l).     (* grows with its input: names joined by commas *)
 Definition ex_dev : device :=
   mk_device (bslit "d0") [mkPlug (bslit "p1") (Some (bslit "n1"))]
             [(PM_LOG_IN, [Send (bslit "login\n"); Expect (bslit "ok")]); (PM_POWER_ON, [Send (bslit "on %s\n"); Expect (bslit "done")])] 5000000 0.
@@ -145,18 +145,10 @@ Definition ex_h2 : hstate := mkH 0 [(ex_dev, peer0); (ex_dev1, peer0)] [].
 Lemma ex_cfg_ok : forall d, d = ex_dev \/ d = ex_dev1 -> cfg_ok ex_compress d.
 Proof.
   intros d Hd. split; [destruct Hd as [-> | ->]; eexists; reflexivity|]. intros i s H.
-  assert (G : forall pl (l : text), (forall ps, opt_incl ps pl -> exists str, hsprintf1 l (send_arg ex_compress (new_ctx [] ps)) = Some str /\ (length str <= Z.to_nat MAX_DEV_BUF)%nat) -> fmt_ok ex_compress pl l) by (intros pl l X; exact X).
-  assert (Hs : (s = [Send (bslit "login\n"); Expect (bslit "ok")] \/ s = [Send (bslit "on %s\n"); Expect (bslit "done")]) /\ exists nd, sd_plugs (dv d) = [mkPlug (bslit "p1") (Some nd)]).
+  assert (Hs : s = [Send (bslit "login\n"); Expect (bslit "ok")] \/ s = [Send (bslit "on %s\n"); Expect (bslit "done")]).
   { destruct Hd as [-> | ->]; cbn [dv_scripts ex_dev ex_dev1 mk_device assoc_script] in H;
-      (split; [destruct (Z.eqb i PM_LOG_IN); [injection H as <-; now left|destruct (Z.eqb i PM_POWER_ON); [injection H as <-; now right|discriminate H]]|eexists; reflexivity]). }
-  destruct Hs as [[-> | ->] [nd Hp]]; rewrite Hp; (split; [discriminate|]); (constructor; [|constructor; [exact Logic.I|constructor]]); cbn [wf_stmt]; apply G.
-  - intros ps _. eexists. split; [vm_compute; reflexivity|cbn [length]; unfold MAX_DEV_BUF; lia].
-  - intros [[|p [|q r]]|] Hi.
-    + eexists. split; [vm_compute; reflexivity|cbn [length]; unfold MAX_DEV_BUF; lia].
-    + assert (p = mkPlug (bslit "p1") (Some nd)) by (destruct (Hi p (or_introl eq_refl)) as [<-|[]]; reflexivity). subst p.
-      eexists. split; [vm_compute; reflexivity|cbn [length]; unfold MAX_DEV_BUF; lia].
-    + eexists. split; [vm_compute; reflexivity|cbn [length]; unfold MAX_DEV_BUF; lia].
-    + eexists. split; [vm_compute; reflexivity|cbn [length]; unfold MAX_DEV_BUF; lia].
+      (destruct (Z.eqb i PM_LOG_IN); [injection H as <-; now left|destruct (Z.eqb i PM_POWER_ON); [injection H as <-; now right|discriminate H]]). }
+  destruct Hs as [-> | ->]; (split; [discriminate|]); (constructor; [|constructor; [exact Logic.I|constructor]]); cbn [wf_stmt]; intros ps _; eexists; vm_compute; reflexivity.
 Qed.
 Example C05_noninterference_hyps : hok ex_compress 1 ex_hid ex_h2 /\ hrel 1 ex_hid ex_h2 ex_h2.
 Proof.
